@@ -1081,7 +1081,13 @@ func (r *VersionedSignedValidatorRegistration) UnmarshalJSON(input []byte) error
 		return errors.New("unknown version")
 	}
 
-	r.VersionedSignedValidatorRegistration = resp
+	// A json null registration decodes into a nil pointer, reject it like NewVersionedSignedValidatorRegistration does.
+	wrapped, err := NewVersionedSignedValidatorRegistration(&resp)
+	if err != nil {
+		return err
+	}
+
+	*r = wrapped
 
 	return nil
 }
